@@ -112,6 +112,14 @@ def delete_rule(ctx, rid, title="delete is last: table, gather/sync completed be
                         untracked = [a_ for a_ in list(c_.args) + [k.value for k in c_.keywords] if not (isinstance(a_, ast.Constant) or (isinstance(a_, ast.Name) and a_.id in FLAGS))]
                         if untracked:
                             raise AnalysisError("idiom changed: the crop is deleted inside `%s`, decided there from `%s`, which is not a tracked flag" % (norm(c_)[:50], norm(untracked[0])[:40]))
+                # ... or behind a test on a field of a record (`plan.clean_up`): the flow analysis tracks flags held in names, not in
+                # the fields of objects built earlier, so it took both arms
+                from ..pathcond import path_tests as _pt12
+                if getattr(d, "stmt", None) is not None:
+                    for t_, _pol in _pt12(f.node, d.stmt):
+                        fld_ = [x_ for x_ in ast.walk(t_) if isinstance(x_, ast.Attribute) and isinstance(x_.value, ast.Name) and x_.value.id != "self"]
+                        if fld_:
+                            raise AnalysisError("idiom changed: the deletion in %s is decided by `%s`, a field of a record, which is not a tracked flag" % (f.name, norm(fld_[0])[:40]))
                 r1.bad(ctx.finding(rid, f, d.stmt, "the crop can be deleted although the effective clean_up is False (%s): clean_up / allow_incomplete are not honoured as documented" % vtxt,
                                    construct="delete-when-clean_up-false " + d.text()[:80], path=vtxt), "R1a %s [%s]" % (f.name, vtxt))
             elif (not dels) and eff:
